@@ -11,7 +11,8 @@ EXPLANATION = (
     "inside it two whole-array [u8;8] equality tests each guard a diverging edge (magic read at offset 0 vs the "
     "same constant the header writer emits first; next 8 bytes vs the signature parameter); the checker has no "
     "write effect; (2) the signature handed to all three opens originates from <KT as DbMapKeyType>::signature(); "
-    "(3) the evaluated signatures of all DbMapKeyType impls are pairwise distinct.")
+    "(3) the evaluated signatures of all DbMapKeyType impls are pairwise distinct; (4) creating the hash-table file "
+    "always sets its length on disk, so that a new, still unflushed map is not an empty file for a second open.")
 NOT_DECIDED = ("that every single-byte mutation is caught at run time (follows from whole-array comparison, which is "
                "checked); behaviour on truncated files; byte-for-byte file equality after a rejected open.")
 ASSUMPTIONS = ["panic!/assert! diverge; rabuf::RaBuf<T> is only instantiated with std::fs::File (checked)"]
